@@ -170,28 +170,75 @@ def poolA (ops outs : List String) : String := Id.run do
 
 /-! ### level A: validate an observed log against Spec.Gc
 
-  tokens:  M:<id>:<flags>  G:<id>  R:<id>  B (isolating CallContext begins)  P (PushContext)
-           Q (body of the innermost CallContext is over)  E:<status>  C / Z (Close begins / returned)
-  The epoch of a `G`/`R` is the last marking of that value before it. -/
+  tokens:  M:<id>:<flags>            value marked (flags: 1 = finalise, 2 = release, 3 = both) in the current pool
+           G:<id>[@<depth>]          `__gc` of value id ran [while <depth> contexts were open]
+           R:<id>[@<depth>]          resources of value id released
+           B:<t> / S:<t>             CallContext begins, with / without its own pool (per the SPEC's `isolates`);
+                                     t = 1 iff CPU is accounted inside it
+           P / p                     PushContext, with / without its own pool
+           Q                         the body of the innermost CallContext is over
+           E:<status> / e            the innermost CallContext (with / without its own pool) returned
+           U:<n>                     CPU charged to the context that just ended, in finaliser units
+           C / Z                     Close begins / returned
+  The epoch of a `G`/`R` is the last marking of that value before it.  A value belongs to the pool of the
+  innermost context that has its own pool at marking time: it must be finalised/released INSIDE that
+  context (depth ≥ the context's depth) and BY its end. -/
+
+/-- descending, equal neighbours allowed (a repeated epoch is reported as `finalized-twice`, not as an order violation) -/
+def descOrEqB : List Nat → Bool
+  | [] => true
+  | [_] => true
+  | x :: y :: t => decide (y ≤ x) && descOrEqB (y :: t)
+
+/-- the epochs that occur more than once -/
+def dupsOf (l : List Nat) : List Nat := (l.filter (fun x => l.count x > 1)).eraseDups
+
+structure Frame where
+  pool : Option Nat      -- its own pool, if it isolates
+  isCall : Bool
+  bodyEnd : Option Nat   -- trace position of `Q`
+  tracked : Bool
+  finsAtBegin : Nat
 
 structure LuaSt where
   tr : Array TEv := #[]
   seq : Nat := 0
   nextPool : Nat := 1
-  /-- open isolating contexts, innermost first: pool id, is it a CallContext, trace position of `Q` -/
-  ctxs : List (Nat × Bool × Option Nat) := []
+  frames : List Frame := []
+  /-- pool id ↦ depth of the context that owns it -/
+  poolDepth : Array Nat := #[0]
   /-- epoch ↦ (value id, pool id, wants finalise, wants release) -/
   epochs : Array (Nat × Nat × Nat × Bool × Bool) := #[]
   closing : Option Nat := none
   dead : List Nat := []       -- epochs whose pool is gone: nothing may be finalised or released any more
+  fins : Nat := 0
+  lastEnded : Option (Bool × Nat) := none   -- (CPU tracked?, finalisers run inside) of the context that just ended
   bad : Array String := #[]
 
-def LuaSt.curPool (st : LuaSt) : Nat := match st.ctxs with | (p, _, _) :: _ => p | [] => 0
+def LuaSt.curPool (st : LuaSt) : Nat :=
+  match st.frames.find? (fun f => f.pool.isSome) with
+  | some f => f.pool.getD 0
+  | none => 0
+
+def LuaSt.poolOfEpoch (st : LuaSt) (ep : Nat) : Nat :=
+  match st.epochs.toList.find? (fun x => x.1 == ep) with
+  | some x => x.2.2.1
+  | none => 0
+
+/-- `3` or `3@1` -/
+def parseIdAt (cs : List Char) : Option (Nat × Option Nat) :=
+  match splitChars '@' cs with
+  | [a] => (natOfChars? a).map (fun k => (k, none))
+  | [a, d] => match natOfChars? a, natOfChars? d with
+    | some k, some n => some (k, some n)
+    | _, _ => none
+  | _ => none
 
 def luaLine (toks : List String) : String := Id.run do
   let mut st : LuaSt := {}
   for tok in toks do
     let parts := splitChars ':' tok.toList
+    if tok != "U" && !(tok.startsWith "U:") then st := { st with lastEnded := none }
     match parts with
     | [['M'], a, d] =>
       match natOfChars? a, natOfChars? d with
@@ -201,41 +248,69 @@ def luaLine (toks : List String) : String := Id.run do
                         epochs := st.epochs.push (ep, k, st.curPool, n % 2 == 1, n / 2 == 1) }
       | _, _ => return "bad-line"
     | [['G'], a] =>
-      match natOfChars? a with
-      | some k =>
+      match parseIdAt a with
+      | some (k, depth) =>
+        st := { st with fins := st.fins + 1 }
         match currentEpoch k st.tr.toList with
         | none => st := { st with bad := st.bad.push ("fin-unmarked:" ++ toString k) }
         | some ep =>
           if st.dead.contains ep then st := { st with bad := st.bad.push ("fin-after-context-end:" ++ toString k) }
-          let atEnd := st.closing.isSome || (match st.ctxs with | (_, _, some _) :: _ => true | _ => false)
+          match depth with
+          | some d =>
+            if d < st.poolDepth[st.poolOfEpoch ep]! then
+              st := { st with bad := st.bad.push ("finalized-outside-its-context:" ++ toString k) }
+          | none => pure ()
+          let atEnd := st.closing.isSome || (match st.frames with | f :: _ => f.bodyEnd.isSome | [] => false)
           st := { st with tr := st.tr.push (.fin (if atEnd then .af else .pf) { key := k, id := 0, clone := true } ep) }
       | none => return "bad-line"
     | [['R'], a] =>
-      match natOfChars? a with
-      | some k =>
+      match parseIdAt a with
+      | some (k, depth) =>
         match currentEpoch k st.tr.toList with
         | none => st := { st with bad := st.bad.push ("rel-unmarked:" ++ toString k) }
         | some ep =>
           if st.dead.contains ep then st := { st with bad := st.bad.push ("rel-after-context-end:" ++ toString k) }
+          match depth with
+          | some d =>
+            if d < st.poolDepth[st.poolOfEpoch ep]! then
+              st := { st with bad := st.bad.push ("released-outside-its-context:" ++ toString k) }
+          | none => pure ()
           st := { st with tr := st.tr.push (.rel .pr { key := k, id := 0, clone := true } ep) }
       | none => return "bad-line"
-    | [['B']] => st := { st with ctxs := (st.nextPool, true, none) :: st.ctxs, nextPool := st.nextPool + 1 }
-    | [['P']] => st := { st with ctxs := (st.nextPool, false, none) :: st.ctxs, nextPool := st.nextPool + 1 }
+    | [['B'], t] | [['P'], t] =>
+      let isCall := tok.startsWith "B"
+      st := { st with frames := { pool := some st.nextPool, isCall := isCall, bodyEnd := none, tracked := t == ['1'],
+                                  finsAtBegin := st.fins } :: st.frames,
+                      poolDepth := st.poolDepth.push (st.frames.length + 1), nextPool := st.nextPool + 1 }
+    | [['S'], t] | [['p'], t] =>
+      let isCall := tok.startsWith "S"
+      st := { st with frames := { pool := none, isCall := isCall, bodyEnd := none, tracked := t == ['1'],
+                                  finsAtBegin := st.fins } :: st.frames }
     | [['Q']] =>
-      match st.ctxs with
-      | (p, true, _) :: rest => st := { st with ctxs := (p, true, some st.tr.size) :: rest }
+      match st.frames with
+      | f :: rest => if f.isCall then st := { st with frames := { f with bodyEnd := some st.tr.size } :: rest } else return "bad-line"
+      | _ => return "bad-line"
+    | [['e']] =>
+      match st.frames with
+      | f :: rest =>
+        if f.pool.isSome || !f.isCall then return "bad-line"
+        st := { st with frames := rest, lastEnded := some (f.tracked, st.fins - f.finsAtBegin) }
       | _ => return "bad-line"
     | [['E'], status] =>
-      match st.ctxs with
-      | (pool, true, be) :: rest =>
+      match st.frames with
+      | f :: rest =>
+        match f.pool with
+        | none => return "bad-line"
+        | some pool =>
+        let be := f.bodyEnd
         let tr := st.tr.toList
         let killed := String.ofList status == "killed"
         let mine := st.epochs.toList.filter (fun x => x.2.2.1 == pool)
-        for (ep, k, _, f, r) in mine do
+        for (ep, k, _, fl, r) in mine do
           -- only the epochs that are still the current marking of their value are owed anything
           if currentEpoch k tr == some ep then
             if r && !(relOrders tr).contains ep then st := { st with bad := st.bad.push ("not-released-by-context-end:" ++ toString k) }
-            if f && !killed && !(finOrders tr).contains ep then
+            if fl && !killed && !(finOrders tr).contains ep then
               st := { st with bad := st.bad.push ("not-finalized-by-context-end:" ++ toString k) }
         if killed then
           -- nothing marked in a killed context may be finalised from the kill on; the kill is not
@@ -246,10 +321,17 @@ def luaLine (toks : List String) : String := Id.run do
         else
           match be with
           | some pos =>
-            if !descB (closeFinOrders (tr.drop pos)) then st := { st with bad := st.bad.push "context-end-order:0" }
+            if !descOrEqB (closeFinOrders (tr.drop pos)) then st := { st with bad := st.bad.push "context-end-order:0" }
           | none => pure ()
-        st := { st with ctxs := rest, dead := mine.map (·.1) ++ st.dead }
+        st := { st with frames := rest, dead := mine.map (·.1) ++ st.dead,
+                        lastEnded := some (f.tracked, st.fins - f.finsAtBegin) }
       | _ => return "bad-line"
+    | [['U'], n] =>
+      match st.lastEnded, natOfChars? n with
+      | some (tracked, inside), some got =>
+        -- finalisers of a context that accounts for CPU are charged to it
+        if tracked && got != inside then st := { st with bad := st.bad.push ("finalizers-not-charged-to-their-context:" ++ toString got) }
+      | _, _ => return "bad-line"
     | [['C']] => st := { st with closing := some st.tr.size }
     | [['Z']] =>
       let tr := st.tr.toList
@@ -259,28 +341,47 @@ def luaLine (toks : List String) : String := Id.run do
         -- reverse order of marking, pool by pool
         for pool in (List.range st.nextPool) do
           let mine := (st.epochs.toList.filter (fun x => x.2.2.1 == pool)).map (·.1)
-          if !descB ((closeFinOrders (tr.drop pos)).filter (fun n => mine.contains n)) then
+          if !descOrEqB ((closeFinOrders (tr.drop pos)).filter (fun n => mine.contains n)) then
             st := { st with bad := st.bad.push "close-order:0" }
         for (ep, k, _, f, r) in st.epochs.toList do
           if currentEpoch k tr == some ep && !st.dead.contains ep then
             if f && !(finOrders tr).contains ep then st := { st with bad := st.bad.push ("not-finalized-by-close:" ++ toString k) }
             if r && !(relOrders tr).contains ep then st := { st with bad := st.bad.push ("not-released-by-close:" ++ toString k) }
-        st := { st with dead := st.epochs.toList.map (·.1) }
+        st := { st with dead := st.epochs.toList.map (·.1), frames := [] }
     | _ => return "bad-line"
   let tr := st.tr.toList
-  if !finOnce tr then st := { st with bad := st.bad.push "finalized-twice:0" }
+  if !finOnce tr then
+    for ep in dupsOf (finOrders tr) do
+      let k := match st.epochs.toList.find? (fun x => x.1 == ep) with | some x => x.2.1 | none => 0
+      st := { st with bad := st.bad.push ("finalized-twice:" ++ toString k) }
   if !relOnce tr then st := { st with bad := st.bad.push "released-twice:0" }
   if !noFinAfterRel tr then st := { st with bad := st.bad.push "finalized-after-release:0" }
   if st.bad.isEmpty then return "ok" else return "bad " ++ " ".intercalate st.bad.toList
 
-/-! ### runtime mode -/
+/-! ### runtime mode
 
-def showLog (d : List TEv) : String :=
-  let l := d.filterMap fun e => match e with
-    | .fin _ v _ => some ("f" ++ toString v.key)
-    | .rel _ v _ => some ("r" ++ toString v.key)
+  ops:  mkT<m>:<k>      new table k with metatable kind m (1 = no __gc, 2 = __gc, 3 = __gc that raises)
+        mkU<r><m>:<k>   new userdata k, releasable r ∈ {0,1}, metatable kind m ∈ {0 = none, 1, 2, 3}
+        rm<m>:<k>o|c    SetRawMetatable(original / last clone of k, metatable kind m ∈ {1,2,3})
+        dr:<k>o|c  fi:<k>o|c  st
+        cc.<lims>.<pol>  CallContext with hard limits lims ⊆ "cmt" (cpu, memory, millis) and GC policy d|s|i;  ed | ee | ek
+        pu.<lims>.<pol>  PushContext;  cl  Close
+  outputs: `f3@1` / `r3@1` (value 3 finalised / released while 1 context was open), `!` = that finaliser
+  raised, `|w<n>` = n `error in finalizer` warnings, `~<n>` = CPU charged to the ending context. -/
+
+def parseCtxDef (cs : List Char) : Option GcRuntime.CtxDef :=
+  match splitChars '.' cs with
+  | [_, lims, [pol]] =>
+    let policy? : Option GcRuntime.GCPolicy :=
+      if pol == 'd' then some .default else if pol == 's' then some .share else if pol == 'i' then some .isolate else none
+    policy?.map fun policy => { cpu := lims.contains 'c', mem := lims.contains 'm', millis := lims.contains 't', policy := policy }
+  | _ => none
+
+def showLogAt (evs : List TEv) (depths : List Nat) (raised : List Bool) : List String :=
+  ((evs.zip depths).zip raised).filterMap fun ((e, d), r) => match e with
+    | .fin _ v _ => some ("f" ++ toString v.key ++ "@" ++ toString d ++ (if r then "!" else ""))
+    | .rel _ v _ => some ("r" ++ toString v.key ++ "@" ++ toString d)
     | _ => none
-  if l.isEmpty then "-" else ",".intercalate l
 
 /-- `<k>o` = the original of value k, `<k>c` = the clone of k most recently handed to a finaliser -/
 def resolve (s : GcRuntime.Rt) (cs : List Char) : Option Obj :=
@@ -297,18 +398,42 @@ def resolve (s : GcRuntime.Rt) (cs : List Char) : Option Obj :=
       else none
   | [] => none
 
-/-- observed `f3,r3` → level-A tokens -/
+/-- the event part of an output: strip `|w…` and `~…` -/
+def eventPart (out : String) : String :=
+  String.ofList ((out.toList.takeWhile (fun c => c != '|' && c != '~')))
+
+def usagePart (out : String) : Option String :=
+  match splitChars '~' out.toList with
+  | [_, n] => some (String.ofList n)
+  | _ => none
+
+/-- observed `f3@1!,r3@1` → level-A tokens -/
 def obsTokens (out : String) : List String :=
-  if out == "-" || out == "panic" || out == "0" || out == "1" || out == "X" || out == "n" then [] else
-  (out.splitOn ",").map fun s =>
-    match s.toList with
+  let ev := eventPart out
+  if ev == "-" || ev == "" || ev == "panic" || ev == "0" || ev == "1" || ev == "X" || ev == "n" then [] else
+  (ev.splitOn ",").map fun s =>
+    let cs := s.toList.filter (fun c => c != '!')
+    match cs with
     | 'f' :: r => "G:" ++ String.ofList r
     | 'r' :: r => "R:" ++ String.ofList r
     | _ => "?"
 
+/-- key of a `G:3@1` token -/
+def tokKey (t : String) : Option String :=
+  match t.toList with
+  | 'G' :: ':' :: r => some (String.ofList (r.takeWhile (fun c => c != '@')))
+  | _ => none
+
+def markFlagsOf (isTable releasable : Bool) (m : Nat) : Bool × Bool :=
+  if isTable then GcRuntime.tableMarkFlags (m ≥ 2) else GcRuntime.userDataMarkFlags releasable (m ≥ 1) (m ≥ 2)
+
+def flagsNum (fr : Bool × Bool) : Nat := (if fr.1 then 1 else 0) + (if fr.2 then 2 else 0)
+
 def rtLine (toks : List String) (impl : List String) : String := Id.run do
   let mut s : GcRuntime.Rt := {}
-  let mut ctx : List Bool := []   -- open CallContexts: isolating?
+  -- open contexts, innermost first: (is a CallContext, isolates per spec, CPU tracked, fins in the model's log at its beginning)
+  let mut ctx : List (Bool × Bool × Bool × Nat) := []
+  let mut kinds : List (Nat × Bool × Bool) := []   -- value ↦ (is a table, releasable)
   let mut outs : Array String := #[]
   let mut atoks : Array String := #[]   -- level-A tokens built from the IMPLEMENTATION's outputs
   let mut implLeft := impl
@@ -320,65 +445,94 @@ def rtLine (toks : List String) (impl : List String) : String := Id.run do
   -- values of which a clone was handed out by a close-time finalisation while they were still referenced
   let mut tainted : List String := []
   for tok in toks do
-    let obs := obsTokens (implLeft.head?.getD "-")
     let implOut := implLeft.head?.getD "-"
+    let obs := obsTokens implOut
     implLeft := implLeft.drop 1
     if s.fatal then
       outs := outs.push "X"
       continue
     let before := s.log.length
+    let warnedBefore := s.warned.length
     let panicsBefore := (s.pools.map (·.panics)).foldl (· + ·) 0
     let mut fireOut : Option String := none
+    let mut usage : Option Nat := none
     let mut ok := true
-    match tok with
-    | "st" =>
+    let finsNow := fun (st : GcRuntime.Rt) => (st.log.filter fun e => match e with | .fin _ _ _ => true | _ => false).length
+    if tok == "st" then
       s := GcRuntime.rstep s (.prim .step); atoks := atoks ++ obs
       -- level A, never finalised while reachable: a pending finalisation observed on the implementation
       for t in obs do
-        match t.toList with
-        | 'G' :: ':' :: r =>
-          let k := String.ofList r
+        match tokKey t with
+        | some k =>
           if refs.contains (k ++ "o") || refs.contains (k ++ "c") then
             reachable := reachable.push ((if tainted.contains k then "finalized-while-reachable-through-the-original-after-close-time-finalisation:"
               else "finalized-while-reachable:") ++ k)
-        | _ => pure ()
-    | "pu" => s := GcRuntime.rstep s (.prim .push); atoks := atoks.push "P"
-    | "cc" => s := GcRuntime.rstep s (.prim .push); ctx := true :: ctx; atoks := atoks.push "B"
-    | "cs" => ctx := false :: ctx
-    | "ps" => pure ()
-    | "cl" => s := GcRuntime.rstep s .close; atoks := (atoks.push "C") ++ obs |>.push "Z"
-    | "ed" | "ee" | "ek" =>
+        | none => pure ()
+    else if tok == "cl" then
+      s := GcRuntime.rstep s .close; atoks := (atoks.push "C") ++ obs |>.push "Z"; ctx := []
+    else if tok == "ed" || tok == "ee" || tok == "ek" then
       match ctx with
       | [] => ok := false
-      | iso :: rest =>
+      | (isCall, iso, tracked, fins0) :: rest =>
+        if !isCall then ok := false
         ctx := rest
         if iso then
           s := GcRuntime.rstep s (if tok == "ek" then .callKilled else .callDone)
           atoks := (atoks.push "Q") ++ obs |>.push (if tok == "ek" then "E:killed" else if tok == "ee" then "E:error" else "E:done")
-        else atoks := atoks ++ obs
-    | _ =>
+        else
+          s := GcRuntime.rstep s (.prim .popShare)
+          atoks := (atoks ++ obs).push "e"
+        usage := some (if tracked then finsNow s - fins0 else 0)
+        match usagePart implOut with
+        | some n => atoks := atoks.push ("U:" ++ n)
+        | none => pure ()
+    else if tok.startsWith "cc." || tok.startsWith "pu." then
+      match parseCtxDef tok.toList with
+      | none => ok := false
+      | some d =>
+        let isCall := tok.startsWith "cc."
+        let iso := GcRuntime.isolates d
+        let tracked := d.cpu || d.millis || ctx.any (fun c => c.2.2.1)
+        s := GcRuntime.rstep s (.pushCtx d)
+        ctx := (isCall, iso, tracked, finsNow s) :: ctx
+        let t := if tracked then "1" else "0"
+        atoks := atoks.push ((if isCall then (if iso then "B:" else "S:") else (if iso then "P:" else "p:")) ++ t)
+    else
       match splitChars ':' tok.toList with
       | [h, a] =>
         match h with
-        | ['m', 'k', d] =>
+        | ['m', 'k', 'T', m] | ['m', 'k', 'U', _, m] =>
           match natOfChars? a with
           | some k =>
-            let n := d.toNat - '0'.toNat
-            s := GcRuntime.rstep s (.prim (.mark { key := k, id := 0, clone := false } (n % 2 == 1) (n / 2 == 1)))
+            let isTable := h.length == 4
+            let releasable := !isTable && h[3]! == '1'
+            let mk := m.toNat - '0'.toNat
+            let fr := markFlagsOf isTable releasable mk
+            kinds := (k, isTable, releasable) :: kinds
+            s := GcRuntime.rstep s (.prim (.mark { key := k, id := 0, clone := false } fr.1 fr.2))
+            if mk == 3 then s := GcRuntime.rstep s (.prim (.setRaise k))
             refs := (toString k ++ "o") :: refs
-            if implOut != "panic" && implOut != "X" then atoks := atoks.push ("M:" ++ toString k ++ ":" ++ toString n)
+            if implOut != "panic" && implOut != "X" && flagsNum fr != 0 then
+              atoks := atoks.push ("M:" ++ toString k ++ ":" ++ toString (flagsNum fr))
           | none => ok := false
-        | ['r', 'm', d] =>
+        | ['r', 'm', m] =>
+          let mk := m.toNat - '0'.toNat
+          let kstr := String.ofList (a.take (a.length - 1))
+          let kind := kinds.find? (fun x => toString x.1 == kstr)
+          let fr := match kind with
+            | some (_, isTable, releasable) => markFlagsOf isTable releasable mk
+            | none => (false, false)
           match resolve s a with
           | some ob =>
-            let n := d.toNat - '0'.toNat
-            s := GcRuntime.rstep s (.prim (.mark ob (n % 2 == 1) (n / 2 == 1)))
+            -- the metatable (hence whether `__gc` raises) only reaches the pool's clone if the value is marked again
+            s := GcRuntime.rstep s (.prim (.mark ob fr.1 fr.2))
+            if flagsNum fr != 0 && mk == 3 then s := GcRuntime.rstep s (.prim (.setRaise ob.key))
           | none => fireOut := some "n"
           -- level A goes by what the implementation says it did, not by the model
           if implOut != "n" then
             if !refs.contains (String.ofList a) then disciplined := false
-            if implOut != "panic" && implOut != "X" then
-              atoks := atoks.push ("M:" ++ String.ofList (a.take (a.length - 1)) ++ ":" ++ String.singleton d)
+            if implOut != "panic" && implOut != "X" && flagsNum fr != 0 then
+              atoks := atoks.push ("M:" ++ kstr ++ ":" ++ toString (flagsNum fr))
         | ['f', 'i'] =>
           match resolve s a with
           | some ob =>
@@ -390,17 +544,20 @@ def rtLine (toks : List String) (impl : List String) : String := Id.run do
         | _ => ok := false
       | _ => ok := false
     if !ok then return "bad-line"
-    let d := showLog (s.log.drop before)
+    let evs := showLogAt (s.log.drop before) (s.ran.drop before) (s.raised.drop before)
+    let nw := s.warned.length - warnedBefore
+    let d := (if evs.isEmpty then "-" else ",".intercalate evs) ++ (if nw > 0 then "|w" ++ toString nw else "")
+      ++ (match usage with | some n => "~" ++ toString n | none => "")
     if tok == "cl" || tok == "ed" || tok == "ee" then
       for t in obs do
-        match t.toList with
-        | 'G' :: ':' :: r => if refs.contains (String.ofList r ++ "o") || refs.contains (String.ofList r ++ "c") then tainted := String.ofList r :: tainted
-        | _ => pure ()
+        match tokKey t with
+        | some k => if refs.contains (k ++ "o") || refs.contains (k ++ "c") then tainted := k :: tainted
+        | none => pure ()
     -- every value the implementation handed to a finaliser is referenced (the harness keeps the clone) until dropped
     for t in obs do
-      match t.toList with
-      | 'G' :: ':' :: r => refs := (String.ofList r ++ "c") :: refs.filter (fun x => x != String.ofList r ++ "c")
-      | _ => pure ()
+      match tokKey t with
+      | some k => refs := (k ++ "c") :: refs.filter (fun x => x != k ++ "c")
+      | none => pure ()
     let panicked := (s.pools.map (·.panics)).foldl (· + ·) 0 > panicsBefore
     outs := outs.push (if s.fatal then "X" else if panicked then "panic" else match fireOut with | some f => f | none => d)
   -- a history that dies in runtime.SetFinalizer or uses the runtime after Close is not judged further
@@ -408,11 +565,17 @@ def rtLine (toks : List String) (impl : List String) : String := Id.run do
   let verdict :=
     if s.fatal then "fatal" else if usedAfterClose then "ok" else if !disciplined then "undisciplined"
     else
-      let v := luaLine atoks.toList
+      -- a second finalisation of a value whose CLONE was handed out by a close-time finalisation while the
+      -- original was still referenced belongs to the same (recorded) family as `reachable` below
+      let v0 := luaLine atoks.toList
+      let v := " ".intercalate ((v0.splitOn " ").map fun r =>
+        match r.splitOn ":" with
+        | ["finalized-twice", k] =>
+          if tainted.contains k then "finalized-while-reachable-through-the-original-after-close-time-finalisation:" ++ k else r
+        | _ => r)
       if reachable.isEmpty then v
       else (if v == "ok" then "bad" else v) ++ " " ++ " ".intercalate reachable.toList
   return " ".intercalate outs.toList ++ " ; ds=" ++ (if s.fatal then "1" else "0") ++ " ; A=" ++ verdict
-
 
 def handle (line : String) : String :=
   let toks := (line.splitOn " ").filter (fun s => !s.isEmpty)
